@@ -141,12 +141,22 @@ func (c *Channel) registerSubChannelFunding(id channel.ID, initBals channel.Bala
 }
 
 func (c *Channel) registerSubChannelSettlement(id channel.ID, bals [][]channel.Bal) {
+	// The settlement update must remove exactly the sub-channel's
+	// sub-allocation and credit every participant with its balance in the
+	// sub-channel; all other locked funds stay as they are.
 	filter := func(cu ChannelUpdate) bool {
-		_, containedBefore := c.machine.State().SubAlloc(id)
-		_, containedAfter := cu.State.SubAlloc(id)
-		equalBalances := c.machine.State().Balances.Add(bals).Equal(cu.State.Balances)
-
-		return containedBefore && !containedAfter && equalBalances
+		cur := c.machine.State()
+		if _, containedBefore := cur.SubAlloc(id); !containedBefore {
+			return false
+		}
+		expectedLocked := make([]channel.SubAlloc, 0, len(cur.Locked))
+		for _, l := range cur.Locked {
+			if l.ID != id {
+				expectedLocked = append(expectedLocked, l)
+			}
+		}
+		return cur.Balances.Add(bals).Equal(cu.State.Balances) &&
+			channel.SubAllocsEqual(expectedLocked, cu.State.Locked)
 	}
 	ui := newUpdateInterceptor(filter)
 	c.subChannelWithdrawals.Register(id, ui)
